@@ -536,6 +536,11 @@ def bp_native(spec, cfg, tier, seed):
                 want = exact_posteriors(H, llr)
                 if any(abs(w) > 6.5 for w in want):
                     continue
+                if not arct and max(abs(w) for w in want) + max(abs(v) for v in llr) > 4.0:
+                    # Taylor_arctanh (105 terms) is an approximation: its truncation error 2 x^211 / (211 (1 - x^2)) at x = tanh(L/2)
+                    # is 6e-5 for an internal message L = 4 but 3e-2 for L = 5; extrinsic messages are bounded by |posterior| + |llr|.
+                    # Exactness to 1e-3 is only demanded where the documented approximation can deliver it.
+                    continue
                 try:
                     _, soft = dec(torch.tensor([llr], dtype=torch.float32), return_soft=True)
                     got = soft.reshape(-1).tolist()
